@@ -26,12 +26,13 @@ def key(v):
         return ("d",) + tuple((key(k), key(x)) for k, x in v.items())
     if isinstance(v, list):
         return ("l",) + tuple(key(x) for x in v)
-    return (type(v).__name__, v)
+    return (type(v).__name__, v)        # None, True, 1 and their spellings as text are all different values
 
 
 values = list(ATOMS)
 values += [[a] for a in ATOMS] + [[a, b] for a, b in itertools.product(ATOMS[:14], repeat=2)] + [[]]
-values += [{k: v} for k, v in itertools.product(ATOMS[:16], ATOMS[:12])] + [{}]
+KEYS = ATOMS[:16] + [1, 0, 12, None, True, "None", "True", "12"]          # mapping keys of every scalar type, next to the text that looks like them
+values += [{k: v} for k, v in itertools.product(KEYS, ATOMS[:12])] + [{}]
 values += [{"a": 1, "b": 2}, {"b": 2, "a": 1}, {"a": [1], "b": {"c": "d"}}, {"a": {"b": 1}}, {"a": [{"b": 1}]}, [["a"]], [[], []], [[[]]], {"a": []}, {"a": {}}]
 if level >= 2:
     values += [{k1: v1, k2: v2} for (k1, v1), (k2, v2) in itertools.combinations(list(itertools.product(ATOMS[:8], ATOMS[:5])), 2) if key(k1) != key(k2)]
